@@ -29,13 +29,13 @@ for G in "$@"; do
   chk=$(cd /verif && ./check $ID --repo $WT --no-evidence 2>&1 | grep -v KNOWN-FINDING | grep -v "^NOTE" | head -1 | cut -c1-400)
   echo "$res demo-without=$without demo-with=$with build=$build suite-nonok=$suite check: $chk"
   if [ $without = 0 ] && [ $with != 0 ] && [ $build = 0 ] && [ "$suite" = 0 ]; then
-    D=/verif/seeded/$ID-adv2-$N; mkdir -p $D; cp $P $D/patch.diff; cp $T $D/demo_test.go.txt
-    python3 - "$ID" "$N" "$dir" "$chk" <<'PY'
+    D=/verif/seeded/$ID-${SLUG_PREFIX-adv2-}$N; mkdir -p $D; cp $P $D/patch.diff; cp $T $D/demo_test.go.txt
+    python3 - "$ID" "$N" "$dir" "$chk" "${SLUG_PREFIX-adv2-}" "${ORIGIN:-second adversarial review (reviewer with read access to the harness): violates the property as stated, build and suite green, not detected by the quick check of that time at seeds 1 and 2}" <<'PY'
 import json,sys
-i,n,d,chk=sys.argv[1:5]
-json.dump({"property":i,"slug":"adv2-"+n,"origin":"second adversarial review (reviewer with read access to the harness): violates the property as stated, build and suite green, not detected by the quick check of that time at seeds 1 and 2",
+i,n,d,chk,pref,origin=sys.argv[1:7]
+json.dump({"property":i,"slug":pref+n,"origin":origin,
  "demo_dir":d,"verified":["patch applies to /repo HEAD","go build ./... (with and without -tags verif) and go test -vet=off -count=1 ./... pass with the patch","demonstration (copied into demo_dir) passes without the patch and fails with it — re-run by tools/adv2confirm.sh"],
- "quick_check_when_stored":chk},open('/verif/seeded/%s-adv2-%s/meta.json'%(i,n),'w'),indent=1)
+ "quick_check_when_stored":chk},open('/verif/seeded/%s-%s%s/meta.json'%(i,pref,n),'w'),indent=1)
 PY
   fi
  done
